@@ -103,6 +103,8 @@ type Run struct {
 	replayFile   string
 	replay       *replayCase
 	frozen       bool
+	// replayingKnown is set while the stored case of a listed finding is re-run
+	replayingKnown bool
 }
 
 type replayCase struct {
@@ -206,6 +208,9 @@ func (r *Run) loadKnown() {
 // KnownOpen reports whether the finding with this id is listed as open; generators use it to
 // exclude the finding's shape by construction (and call Excluded to count what was dropped).
 func (r *Run) KnownOpen(findingID string) bool {
+	if r.replayingKnown {
+		return false // the stored case of a finding is judged without any exclusion
+	}
 	for _, k := range r.known {
 		if k.ID == findingID && k.Status == "open" {
 			return true
@@ -430,7 +435,9 @@ func (r *Run) replayKnown(t *testing.T, name string) {
 			continue
 		}
 		r.knownPrinted[k.ID] = true
+		r.replayingKnown = true
 		_, err := registry[name](k.Case)
+		r.replayingKnown = false
 		switch {
 		case k.Status == "open" && err != nil:
 			fmt.Printf("KNOWN-FINDING: property=%s %s [%s]\n", r.ID, k.Title, k.ID)
